@@ -23,7 +23,7 @@ from .c01 import _eq
 
 # every catalogue entry except 10: a Base-typed field holding a Base or a Derived instance is not
 # representable in the dictionary form (no type marker), so it is outside the property's domain
-CATS = "{" + ",".join(str(i) for i in range(1, 28) if i != 10) + "}"
+CATS = "{" + ",".join(str(i) for i in range(1, 30) if i != 10) + "}"
 NATIVE = (dict, list, tuple, str, int, float, bool, type(None))
 
 
